@@ -214,3 +214,11 @@ Definition execute (h : cmd_handler) (e : event) : outcome :=
         end
     end
   end.
+
+(* ---- a sequence of messages -------------------------------------------- *)
+
+(* Execute keeps nothing from one message to the next (the table is only changed by Add):
+   the outcomes of k calls in a row - also while the functions started for earlier
+   messages are still running - are the k outcomes of the single calls *)
+Definition execute_seq (h : cmd_handler) (es : list event) : list outcome :=
+  List.map (execute h) es.
